@@ -517,3 +517,86 @@ CONCRETE["e2e:roland_names"] = {
              "unsafe and path-like names ('../../ESC', 'STR+BRASS.', 'A.' / 'A..'); one uniquely named sample each; destination two levels below the work directory",
     "timeout_s": 60.0, "budget_quick": 100, "budget_thorough": 200,
 }
+
+
+# ================================================================================== Roland performances: L/R pairs (C05)
+def _build_roland_pairs(inputs):
+    L = _lib()
+    from contracts.e2e import expand_roland, _rsample
+
+    def run():
+        names = inputs["names"]
+        samples = [_rsample(n, 300, 200 + i) for i, n in enumerate(names)]
+        model = {"fat_version": 1, "disk_name": "D", "volumes": [{"name": "V", "performances": [0]}],
+                 "performances": [{"name": "P", "patches": [0]}], "patches": [{"name": "PA", "partials": [0]}],
+                 "partials": [{"name": "PT", "samples": list(range(len(names))) + [-1] * (4 - len(names))}], "samples": samples}
+        m = expand_roland(model)
+        raw = L.rw.build_roland_image(m)
+        with L.Workdir() as w:
+            img = w.file("img.s7xx", raw)
+            out = w.sub("out")
+            stdout, err = L.do_export(img, out)
+            return {"files": L.read_tree(out), "error": type(err).__name__ if err else None,
+                    "pcm": [L.rw.expected_sample_export(s)[0].hex() for s in m["samples"]]}
+    return {"call": run, "env": {}}
+
+
+def _oracle_roland_pairs(inputs, kind, val, env):
+    L = _lib()
+    if kind != "return":
+        return []
+    if val["error"]:
+        return [f"export-raised({val['error']})"]
+    bad = []
+    names = inputs["names"]
+    pcm = [bytes.fromhex(h) for h in val["pcm"]]
+    found, total = {}, 0
+    for p, data in val["files"].items():
+        info, probs = L.wav_info(data)
+        if info is None or probs:
+            bad.append(f"C04.well-formed({p})")
+            continue
+        chans = _split_channels(info)
+        total += len(chans)
+        for c, cd in enumerate(chans):
+            for i, want in enumerate(pcm):
+                if cd == want:
+                    found.setdefault(i, []).append((p, c))
+    if total != len(names):
+        bad.append(f"C05.channels-add-up(channels={total},samples={len(names)})")
+    for i, n in enumerate(names):
+        if len(found.get(i, [])) != 1:
+            bad.append(f"C05.every-sample-exactly-once({n!r}: {found.get(i)})")
+    for i, n in enumerate(names):
+        m = PAIR.match(n)
+        if m and m.group(3) == "L" and names.count(n) == 1:
+            other = m.group(1) + m.group(2) + "R"
+            if names.count(other) == 1:
+                j = names.index(other)
+                fl, fr = (found.get(i) or [(None, None)])[0], (found.get(j) or [(None, None)])[0]
+                if fl[0] is None or fl[0] != fr[0] or fl[1] != 0 or fr[1] != 1:
+                    bad.append(f"C05.pair-merged-L0-R1({n!r},{other!r}: L at {fl}, R at {fr})")
+                elif re.fullmatch(r"[A-Z0-9]+", m.group(1)) and not fl[0].endswith("/" + m.group(1) + ".wav"):
+                    bad.append(f"C05.pair-named-after-the-common-stem({n!r}: written as {fl[0]!r})")
+    return bad
+
+
+def _small_roland_pairs(tier, seed, shard=(0, 1)):
+    cases = [["STR -L", "STR -R", "SOLO"], ["STR -R", "SOLO", "STR -L"], ["PAD L", "PAD R"], ["PAD R", "PAD L"], ["A-L", "A-R", "B-L", "B-R"], ["X L", "Y R"], ["L", "R", "M"]]
+    for k, c in enumerate(cases):
+        if k % shard[1] == shard[0]:
+            yield {"names": c}
+
+
+@contract("e2e:roland_pairs", props=["C05"], abstract=True)
+def _rp(c):
+    pass
+
+
+CONCRETE["e2e:roland_pairs"] = {
+    "build": _build_roland_pairs, "small": _small_roland_pairs, "oracle": _oracle_roland_pairs,
+    "nontrivial": lambda i, s: s["kind"] == "return",
+    "bound": "7 Roland performances of 2..4 samples: L/R pairs in either directory order, two pairs, a mixed pair (X L / Y R), single letters; every sample's PCM "
+             "appears in exactly one channel, pairs as one two-channel file (L in channel 0) named after the stem",
+    "timeout_s": 60.0, "budget_quick": 100, "budget_thorough": 200,
+}
